@@ -50,7 +50,8 @@ class _H:
 
 class RealSched:
     """the real scheduler class of the tree under test, driven with recorded calls"""
-    def __init__(self, kind):
+    def __init__(self, kind, prime=None):
+        self.prime = prime
         from jellyfysh.base.time import Time
         from jellyfysh.base.exceptions import SchedulerError
         self.Time, self.SErr, self.kind = Time, SchedulerError, kind
@@ -68,6 +69,10 @@ class RealSched:
     def hd(self, i):
         if i not in self.h:
             self.h[i] = _H(i)
+            if self.prime is not None and self.kind == "HeapScheduler":
+                # the traced run started with primed lazy-deletion counters (runtrace: `prime_counters`): the re-executed scheduler
+                # starts in the same state, otherwise the purge at the wrap-around orders tied events differently
+                self.s._minimal_valid_counter[self.h[i]] = int(self.prime)
         return self.h[i]
 
     def push(self, i, t):
@@ -179,7 +184,8 @@ def replay(ctx, tr, w, cap, obs=None, label=None):
         return 0
     prim = 0 if kind == "HeapScheduler" else 1
     names = ["heap", "list", "spec"]
-    real = RealSched(kind) if obs is None else None
+    primed = (tr.get("job") or {}).get("prime_counters") if kind == "HeapScheduler" else None
+    real = RealSched(kind, primed) if obs is None else None
     following = {k: True for k in range(3) if k != prim}     # secondary copies still on the run's path
     cand = {}                     # handler -> current candidate (q bits, r bits), from the recorded pushes
     pushlog = {}                  # handler -> [(leg, (q bits, r bits), ids)]
@@ -222,6 +228,12 @@ def replay(ctx, tr, w, cap, obs=None, label=None):
             return False
         if _events(m["p"]) != pushed:
             bad("med.pushed (one push_event per handed-out handler, in the activator's order)", {"leg": i}, pushed, m["p"])
+            return False
+        if primed is not None and m["handler"] != leg["chosen"] and ctime is not None and m["time"] == ctime:
+            # the model's heap starts with counters 0, the traced run with counters primed just below 2^32: after the purge at the
+            # wrap-around the two heaps may order events of EQUAL time differently (both are minimal: C06); the model copy leaves the
+            # run's path here, exactly as a secondary copy does at a tie
+            ctx.count("med:primed-run-left-model-at-tie")
             return False
         if m["handler"] != leg["chosen"] or (ctime is not None and m["time"] != ctime):
             bad("med.committed", {"leg": i, "handler": meta["handlers"][leg["chosen"]]}, [leg["chosen"], ctime], [m["handler"], m["time"]])
